@@ -201,6 +201,10 @@ class ClientGenerator:
 
                 # 1. ExceptionsEmitter (emits exception_aliases.py to tmp_core_dir_for_diff)
                 self._log_progress("Generating exception files (temp)", "EMIT_EXCEPTIONS_TEMP")
+                # Start from the registry of the existing core: a shared core also holds other clients' codes
+                existing_registry = core_dir / ".exception_registry.json"
+                if existing_registry.exists():
+                    shutil.copy(existing_registry, tmp_core_dir_for_diff / existing_registry.name)
                 exceptions_emitter = ExceptionsEmitter(
                     core_package_name=resolved_core_package_fqn,
                     overall_project_root=str(tmp_project_root_for_diff),  # Use temp project root for context
